@@ -14,6 +14,8 @@ type execAbort struct{ msg string }
 
 // Exec is one activation of a function being executed symbolically.
 type Exec struct {
+	hintSkipped map[*Hint]error
+	hintUsed    map[*Hint]bool
 	u       *Unit
 	fn      *ssa.Function
 	regs    map[ssa.Value]Value
@@ -354,6 +356,8 @@ func (x *Exec) run(st *State, reach Term) {
 			case *ssa.Jump:
 				outs[[2]int{b.Index, b.Succs[0].Index}] = edgeOut{r, cur}
 			case *ssa.Return:
+				x.curBlockReach = r
+				x.hintsAt("return", "return", in.Pos(), cur)
 				var vals []Value
 				for _, rv := range in.Results {
 					vals = append(vals, x.val(rv))
@@ -373,6 +377,11 @@ func (x *Exec) run(st *State, reach Term) {
 				e := outs[[2]int{b.Index, s.Index}]
 				x.loopBack(s, e.st, e.cond)
 			}
+		}
+	}
+	for h, err := range x.hintSkipped {
+		if !x.hintUsed[h] {
+			x.invariantError(fmt.Sprintf("%s / hint[%s]", x.prefix, h.C.Name), h.C, err)
 		}
 	}
 }
@@ -688,6 +697,12 @@ func (x *Exec) loopHeader(h *ssa.BasicBlock, ci *cfgInfo, pre *State, reach Term
 	}
 	// 2. havoc
 	post := pre.Clone()
+	// the allocation counter is havocked first: the validity facts of the havocked cells below
+	// ("points below the allocation counter") must refer to the counter at the loop head, not to
+	// the one before the loop (a slice grown inside the loop lives above the latter)
+	allocBefore := pre.alloc
+	post.alloc = u.W.Fresh("alloc", SInt)
+	u.Assume(reach, Ge(post.alloc, allocBefore))
 	cells := x.loopCells(h, ci)
 	for _, k := range sortedKeys(cells) {
 		// resolve FreeVar to the cell it is bound to
@@ -737,9 +752,6 @@ func (x *Exec) loopHeader(h *ssa.BasicBlock, ci *cfgInfo, pre *State, reach Term
 		post.cells["ghost.now"] = nn
 	}
 	// heaps: new generation constrained by the write frame
-	allocBefore := pre.alloc
-	post.alloc = u.W.Fresh("alloc", SInt)
-	u.Assume(reach, Ge(post.alloc, allocBefore))
 	fr := x.frame
 	a0 := x.alloc0
 	post.heaps = map[string]Term{}
@@ -849,6 +861,12 @@ func (x *Exec) loopBack(h *ssa.BasicBlock, st *State, reach Term) {
 	var lc *LoopContract
 	if x.fc != nil {
 		lc = x.fc.Loops[ord]
+	}
+	// vacuity guard: an iteration of the loop can complete under the invariants and facts assumed
+	// at its head (a contradictory invariant or havoc would make every obligation in the body and
+	// after the loop hold trivially)
+	if so := u.AddObl(fmt.Sprintf("%s / loop#%d / smoke[iteration completes]", x.prefix, ord), "vacuity", "a loop iteration can complete under the assumptions in force (invariants and havoc facts are consistent)", reach, TFalse, x.pos(loopPos(h)), x.prefix); so != nil {
+		so.ExpectSat = true
 	}
 	if lc == nil {
 		return
